@@ -20,6 +20,11 @@ Sub-spaces
            2,3,4,5,7 -> merged denominators 10, 12, 14, 20 ...; shared denominators 2|4), and all 3-leaf
            expressions over {t^a, m2} for the core spellings                                           (complete)
 
+  cancel   dimensional units that cancel completely next to a dimensionless table unit whose factor is not 1:
+           every valid spelling t with another spelling v of its dimension, D in {%, ppth, [pi], [N_0]}:
+           D*t/v, t/(v*D), D2*t/v (the total is dimensionless, the factor must still be the plain product) (complete)
+           + one fixed struct window {%, [pi]2, km, #SLEN, m2, daar} (km/#SLEN and m2/daar cancel)
+
 History dimension: every string that must be rejected is parsed four times in the same process (BaseUnits twice,
 Quantity(1, .) twice) and has to be rejected every time; every string that must be accepted is parsed by BaseUnits and
 again by Quantity and both results are compared.  replay() executes the case in a fresh interpreter, so a record
@@ -55,12 +60,15 @@ MIX_EXPS = [F(1, 2), F(1, 5), F(1, 4), F(1, 3), F(-3, 2), F(1, 7), 2]
 JUNK = ["x", "q", "Q", "j", "_", "~", "da", "kk", "k", "a"]
 NUMBERS = ["2", "1e3", "2.5e-3", "-2"]
 CORE = [("km", 1), ("m", 2), ("s", -1), ("g", F(1, 2)), ("daar", 1), ("#SLEN", 1)]
+DIMLESS_WINDOW = [("%", 1), ("[pi]", 2), ("km", 1), ("#SLEN", 1), ("m", 2), ("daar", 1)]   # struct window NWINDOWS+1
+DIMLESS = ["%", "ppth", "[pi]", "[N_0]"]          # dimensionless table units / constants with factor != 1
 WINDOW_EXPS = [1, 2, -1, F(1, 2), -2, F(-3, 2)]
 NWINDOWS = 24
 N_ATOM_SHARDS = 32
 N_INSERT_SHARDS = 24
 N_SWEEP_SHARDS = 8
 N_MIX_SHARDS = 16
+N_CANCEL_SHARDS = 8
 RTOL = 1e-12
 
 _REF = None
@@ -197,12 +205,26 @@ def _expect(signed):
 def _window(w):
     if w == 0:
         return list(CORE)
+    if w == NWINDOWS + 1:
+        return list(DIMLESS_WINDOW)
     names = sorted(_REF.spellings)
     stride = len(names) // 6
     out = []
     for k in range(6):
         out.append((names[(w - 1 + k * stride) % len(names)], WINDOW_EXPS[(k + w) % 6]))
     return out
+
+
+def _cancel_pairs():
+    """[(t, v)]: every valid spelling t of non-zero dimension with the next other spelling v of the same dimension"""
+    groups = _REF.groups(sorted(_REF.spellings))
+    out = []
+    for d, names in groups.items():
+        if all(x == 0 for x in d) or len(names) < 2:
+            continue
+        for i, t in enumerate(names):
+            out.append((t, names[(i + 1) % len(names)]))
+    return sorted(out)
 
 
 SWEEP = [  # templates over t (every valid spelling); fixed partners m, s, kg
@@ -383,13 +405,14 @@ def plan(tier, seed):
     shards = [("atom", i, N_ATOM_SHARDS) for i in range(N_ATOM_SHARDS)]
     shards += [("insert", i, N_INSERT_SHARDS) for i in range(N_INSERT_SHARDS)]
     shards += [("sweep", i, N_SWEEP_SHARDS) for i in range(N_SWEEP_SHARDS)]
-    windows = [0] + ([1 + seed % NWINDOWS] if tier == "quick" else list(range(1, NWINDOWS + 1)))
+    windows = [0, NWINDOWS + 1] + ([1 + seed % NWINDOWS] if tier == "quick" else list(range(1, NWINDOWS + 1)))
     for w in windows:
         for a in range(6):
             for b in range(6):
                 shards.append(("struct", w, a, b))
     shards += [("numeric", a, None) for a in range(len(CORE) + len(NUMBERS))]
     shards += [("mixexp", i, N_MIX_SHARDS) for i in range(N_MIX_SHARDS)]
+    shards += [("cancel", i, N_CANCEL_SHARDS) for i in range(N_CANCEL_SHARDS)]
     # the complete single-atom sub-spaces first: they yield the smallest counterexamples
     shards.sort(key=lambda d: 1 if d[0] == "struct" else 0)
     return shards
@@ -454,6 +477,8 @@ def run_shard(desc):
         for n in (2, 3, 4):
             for si, shape in enumerate(_shapes(n, 2)):
                 for rest in _product([list(range(6))] * (n - 2)):
+                    if w == NWINDOWS + 1 and min([a, b] + rest) >= 2:
+                        continue                      # no dimensionless atom: the string belongs to the core window
                     leaves = [alpha[i] for i in [a, b] + rest]
                     for ops in _product([["*", "/"]] * (n - 1)):
                         text, signed = _render(shape, leaves, ops)
@@ -499,6 +524,15 @@ def run_shard(desc):
                         text, signed = _render(shape, leaves, ops)
                         _run(sh, dict(sub="mixexp", text=text, expect=_expect(signed), tags=["leaves:3"]),
                              sample=(desc[1] == 0 and idx == [0, 3, 7] and ops == ["/", "*"]))
+    elif kind == "cancel":
+        for n, (t, v) in enumerate(_cancel_pairs()[desc[1]::desc[2]]):
+            for d in DIMLESS:
+                for k, (text, signed) in enumerate((
+                        ("%s*%s/%s" % (d, t, v), [((d, 1), 1), ((t, 1), 1), ((v, 1), -1)]),
+                        ("%s/(%s*%s)" % (t, v, d), [((t, 1), 1), ((v, 1), -1), ((d, 1), -1)]),
+                        ("%s2*%s/%s" % (d, t, v), [((d, 2), 1), ((t, 1), 1), ((v, 1), -1)]))):
+                    _run(sh, dict(sub="cancel", text=text, expect=_expect(signed), tags=["template:%d" % k]),
+                         sample=(n == 4 and desc[1] == 0 and d == "%" and k == 0))
     else:
         raise HarnessError("unknown shard %r" % (desc,))
     _tables_guard(sh)
@@ -535,7 +569,7 @@ def finish(total, tier, seed):
         raise HarnessError("vacuous atom sub-space: %r" % (h,))
     if h.get("insert:reject-expected", 0) < 1000:     # valid results of an insertion belong to the atom sub-space
         raise HarnessError("vacuous insert sub-space: %r" % (h,))
-    for sub in ("sweep", "struct", "numeric", "mixexp"):
+    for sub in ("sweep", "struct", "numeric", "mixexp", "cancel"):
         if h.get(sub + ":accept-expected", 0) < 1000:
             raise HarnessError("vacuous %s sub-space: %r" % (sub, h))
     skipped = sum(v for k, v in h.items() if k.endswith("skipped-out-of-float-range"))
@@ -544,7 +578,7 @@ def finish(total, tier, seed):
         exponent_spellings=EXPS, foreign_items=JUNK, numeric_factors=NUMBERS,
         mixed_exponents=[units_ref.exp_text(e) or "1" for e in MIX_EXPS], parses_per_rejected_string=4,
         structure=dict(max_leaves=4, max_nesting=2, shapes={n: len(_shapes(n, 2)) for n in (2, 3, 4)},
-                       alphabet_size=6, windows_total=NWINDOWS + 1,
+                       alphabet_size=6, windows_total=NWINDOWS + 2,
                        windows_explored=sorted(total.sets.get("windows", []))),
         skipped_out_of_float_range=skipped, caps_hit=[],
         relative_tolerance=RTOL,
@@ -556,9 +590,11 @@ MANIFEST = dict(
          "prefix (admissible or not) x 16 exponent spellings (one/two-digit numerators and denominators); every valid "
          "spelling with one of 10 foreign items put in front of / inside / behind it (plus pseudo-number words); every "
          "valid spelling in 12 product/quotient/parenthesis templates; all "
-         "expressions with <= 4 leaves, nesting <= 2 over 6-atom alphabets (core + 1 of 24 table windows in quick, all "
+         "expressions with <= 4 leaves, nesting <= 2 over 6-atom alphabets (core + dimensionless window + 1 of 24 table windows in quick, all "
          "in thorough); numeric factors in all <= 3-leaf expressions; every valid spelling repeated with two different "
-         "exponents out of 7 (merged denominators up to 28). Every must-reject string is parsed 4 times in one process "
+         "exponents out of 7 (merged denominators up to 28); every valid spelling cancelling against another spelling of "
+         "its dimension next to %, ppth, [pi], [N_0]. Every accepted string is observed through BaseUnits and through "
+         "Quantity(1, text). Every must-reject string is parsed 4 times in one process "
          "and must be rejected each time. Factor (rel 1e-12), exact rational dimension "
          "vector, accept/reject verdict, meaning of the rendered text and the parse-render-parse round trip are "
          "compared with a Fraction model built from the published tables.",
